@@ -405,6 +405,27 @@ def run(ctx):
             ctx.rule('C03.R0', 'INTERNAL', 'checker integrity').bad('cap|' + fn.__name__, '', str(e))
 
 
+def r11_ledger_zeroed_after_release(ctx):
+    r = ctx.rule('C03.R11', 'PAIR', 'the in-flight ledger of a stream is zeroed only after its value was credited back (release first, then reset the ledger)')
+    F = ctx.facts
+    STREAM = 'proto::streams::stream::Stream'
+    n = 0
+    for name, f in sorted(F.fns.items()):
+        if not name.startswith('proto::streams::') or '::tests::' in name:
+            continue
+        for bi, si, pl, rv, ln in f.stmts():
+            if core.write_target(f, pl) == (STREAM, 'in_flight_recv_data') and rv[0] == 'use' and core.op_const(rv[1]) is not None and core.op_const(rv[1])[0] == 0:
+                if name.endswith('Stream::new'):
+                    continue
+                n += 1
+                users = [b for b, t in f.calls() if any(core.mentions_field(f.expr_of_op(a), STREAM, 'in_flight_recv_data') for a in t['a'][1:])]
+                ok = bool(users) and f.dominated_by_blocks(bi, users)
+                # the call must come strictly before the write: same block means the call terminator ends an earlier block, so domination by a different block suffices
+                r.check(ok, 'zeroed-after-release|' + name.replace('proto::streams::', ''), '%s:%d' % (f.file, ln),
+                        'in_flight_recv_data = 0 %s' % ('after the value was passed to the release' if ok else 'BEFORE / without passing the value to a release: the bytes are never credited back to the connection window'))
+    r.floor(n, 1, 'zeroing writes of Stream.in_flight_recv_data')
+
+
 _run_rules = run
 
 
@@ -412,6 +433,7 @@ def run(ctx):
     _run_rules(ctx)
     from .. import boundaries
     boundaries.check(ctx, 'C03.RB', 'C03')
+    r11_ledger_zeroed_after_release(ctx)
     boundaries.check_guards(ctx, 'C03.RG', 'C03')
     boundaries.check_calls(ctx, 'C03.RC', 'C03')
     from . import C06
